@@ -9,6 +9,18 @@ def targeted(ctx):
     out = []
     out.append(codec.Case(('setof', ('octs',)), ('list', [('o', b''), ('o', b'\x00'), ('o', b'\x00\x00'), ('o', b'a'), ('o', b'ab'), ('o', b'a\x00')])))
     out.append(codec.Case(('setof', ('int',)), ('list', [('i', 256), ('i', 1), ('i', -1), ('i', 255), ('i', 65536)])))
+    # SET OF with equal members (an encoder that sorts through a set or a dict loses them)
+    out.append(codec.Case(('setof', ('int',)), ('list', [('i', 7), ('i', 300), ('i', 7)])))
+    out.append(codec.Case(('setof', ('octs',)), ('list', [('o', b'a'), ('o', b'a'), ('o', b'a')])))
+    out.append(codec.Case(('setof', ('seq', [('req', ('int',)), ('opt', ('bool',))])), ('list', [('rec', [('i', 1), None]), ('rec', [('i', 1), None]), ('rec', [('i', 0), ('b', True)])])))
+    out.append(codec.Case(('seq', [('req', ('setof', ('null',)))]), ('rec', [('list', [('null',), ('null',)])])))
+    # an empty constructed member after a present OPTIONAL one, and inside SET: empty values must stay on the wire
+    for kind in ('seq', 'set'):
+        out.append(codec.Case((kind, [('opt', ('int',)), ('req', ('seqof', ('int',))), ('req', ('octs',))]), ('rec', [('i', 2), ('list', []), ('o', b'x')])))
+        out.append(codec.Case((kind, [('opt', ('int',)), ('req', ('imp', (128, 0, 1), ('seq', [('opt', ('bool',))]))), ('opt', ('exp', (128, 0, 2), ('null',)))]),
+                              ('rec', [('i', 2), ('rec', [None]), ('null',)])))
+        out.append(codec.Case((kind, [(('def', ('i', 5)), ('int',)), ('req', ('imp', (64, 0, 9), ('setof', ('octs',)))), ('opt', ('bool',))]),
+                              ('rec', [('i', 6), ('list', []), ('b', False)])))
     out.append(codec.Case(('octs',), ('o', b'\x5a' * 2500)))
     out.append(codec.Case(('str', 'UTF8String'), ('chars', 'é' * 700)))
     # long strings under tags: CER cuts them into segments, which carry the universal tag of the string type
